@@ -671,6 +671,14 @@ LAYOUT_HAND = [
 ]
 
 
+# wide string literals shorter than / exactly as long as the array they initialise (padding is counted in bytes)
+LAYOUT_HAND.append(
+    ('struct W4 { unsigned short s[6]; int t; };\nstruct W6 { char c; unsigned u[3]; char d; };\n'
+     'unsigned short w1[8] = u"ab"; unsigned w2[5] = U"a"; int w3[4] = L"abc"; unsigned short w5[3] = u"abc"; unsigned short w7[2][5] = { u"a", u"bcd" };\n'
+     'const struct W4 w4 = { u"xy", 7 }; const struct W6 w6 = { 1, U"z", 2 };\n',
+     {'globals': [('w1', 'unsigned short[8]', None), ('w2', 'unsigned[5]', None), ('w3', 'int[4]', None), ('w4', 'struct W4', None),
+                  ('w5', 'unsigned short[3]', None), ('w6', 'struct W6', None), ('w7', 'unsigned short[2][5]', None)]}))
+
 # objects whose type is completed only after their first declaration (alignment must be that of the completed type)
 LAYOUT_HAND.append(
     ('struct S; extern struct S b1; struct S { long a; char c; }; struct S b1 = { 1 };\nstruct T b2; struct T { double d; }; \n'
@@ -719,6 +727,13 @@ HAND = [
     'struct b { long y, z; }; long f(struct b *p){ extern long h(int, struct b); return h(1, *p); }\nlong h(int i, struct b q){ return q.z; }\n',
     'struct s { int a : 3; int : 0; char c; short b : 9; } x = { 1, 2, 3 }; _Alignas(32) struct { char c; int b : 5; } y = { 1, 2 };\n',
 ]
+
+
+# jumps to labels that are never defined (invalid programs): whatever the label's name hashes to, the unit is either
+# rejected or - if it is accepted - its IL must not jump to a missing block
+HAND += ['int f(int y){ if (y) goto %s; return 1; %s_: return 2; }\n' % (n, n) for n in
+         ('out', 'done', 'fail', 'retry', 'cleanup', 'err', 'end', 'L1', 'again', 'next', 'l', 'x', 'error', 'exit_', 'bad', 'loop', 'top', 'skip', 'finish', 'unwind')]
+HAND += ['int f(int y){ a: if (y) goto b; c: if (y > 1) goto %s; d: return 1; b: goto c; e: goto a; }\n' % n for n in ('g', 'h', 'out', 'zz', 'lbl9', 'stop')]
 
 
 def replay(ctx, path):
